@@ -96,7 +96,7 @@ fn cmd_sql(stmts: &[String]) {
     for (i, o) in rep.outcomes[0].iter().enumerate() {
         match &o.outcome {
             Outcome::Rows(t) => {
-                println!("[{i}] {:?} {:?} rows={}", t.names, t.types, t.rows.len());
+                println!("[{i}] {:?} {:?} rows={}{}", t.names, t.types, t.rows.len(), t.type_mismatch.as_ref().map(|m| format!(" TYPE-MISMATCH {m}")).unwrap_or_default());
                 for l in value::render_rows(&t.rows, 30) {
                     println!("    {l}");
                 }
